@@ -649,3 +649,22 @@ pub fn assumptions(prop: &str) -> Vec<String> {
     v.push("sequential consistency between scheduling points; weak-memory effects are not modelled".to_string());
     v
 }
+
+/// Evidence level per property (must match MANIFEST.json).
+pub fn level(prop: &str) -> &'static str {
+    match prop {
+        "C13" | "C14" | "C16" => "exploration",
+        "C18" => "fault_enumeration",
+        _ => "model_checking",
+    }
+}
+
+pub fn rule(prop: &str) -> &'static str {
+    match prop {
+        "C13" => "cases are enumerated from the cartesian product of the argument alphabets listed under harnesses[].bounds; a case is distinct if its (operation, arguments, descriptor kind) tuple is distinct; every case issues at least one real operation, so every distinct case is non-trivial",
+        "C14" => "cases are enumerated from the product of buffer type x size x fill x limit (and every n inside a case); distinct = distinct tuple; every case evaluates at least the pointer/length laws on a real buffer",
+        "C16" => "cases are enumerated from the address alphabets; distinct = distinct case tuple; every case performs at least one full address -> kernel representation -> address round trip",
+        "C18" => "cases are (configuration, kernel answer, counter start) tuples enumerated from the product; distinct = distinct tuple; every case runs Config::build on the real code",
+        _ => "histories are enumerated depth first over the action alphabet within the depth and deviation bounds; distinct = distinct canonical state key reached; every history executes real a10 code and is closed by the epilogue oracles",
+    }
+}
